@@ -111,27 +111,42 @@ def cq(x):
 
 
 def _flock(path):
-    import fcntl
-
+    
     f = open(path, "w")
     fcntl.flock(f, fcntl.LOCK_EX)
     return f
 
 
-def ensure_build():
-    """Full .vo build (a no-op when fresh).  Returns (ok, log)."""
-    lock = _flock(COQ / ".build.lock")
-    try:
-        p = subprocess.run(["./build.sh"], cwd=COQ, capture_output=True, text=True)
-        return p.returncode == 0, (p.stdout + p.stderr)[-4000:]
-    finally:
-        lock.close()
+def ensure_build(prop=None):
+    """Full .vo build of what the property needs (a no-op when fresh): theories/<prop>/*.vo and
+    their dependencies; everything when prop is None (that is what MANIFEST.setup_cmd does).
+    build.sh serialises concurrent builds with flock.  Returns (ok, log)."""
+    targets = []
+    if prop is not None:
+        targets = sorted(str(v.relative_to(COQ))[:-2] + ".vo" for v in (COQ / "theories" / prop).glob("*.v"))
+    p = subprocess.run(["./build.sh"] + targets, cwd=COQ, capture_output=True, text=True)
+    return p.returncode == 0, (p.stdout + p.stderr)[-4000:]
 
 
 def scan_forbidden(prop=None):
     """grep the development for anything that would weaken the kernel's guarantee."""
     hits = []
-    for v in sorted((COQ / "theories").rglob("*.v")):
+    files = sorted((COQ / "theories").rglob("*.v"))
+    if prop is not None:
+        # the property's own files and everything they import from this development
+        seen, todo = set(), [COQ / "theories" / prop / "Properties.v"]
+        todo += sorted((COQ / "theories" / prop).glob("*.v"))
+        while todo:
+            f = todo.pop()
+            if f in seen or not f.exists():
+                continue
+            seen.add(f)
+            for d, n in re.findall(r"\b([A-Z][A-Za-z0-9_]*)\.([A-Z][A-Za-z0-9_]*)\b", f.read_text()):
+                cand = COQ / "theories" / d / (n + ".v")
+                if cand.exists():
+                    todo.append(cand)
+        files = sorted(seen)
+    for v in files:
         text = v.read_text()
         # strip comments (non-nested is enough for our files; nested handled by loop)
         prev = None
@@ -328,8 +343,8 @@ class Check:
 
     # -- step 1 -----------------------------------------------------------------------
     def run_proofs(self):
-        ok, log = ensure_build()
-        forb = scan_forbidden()
+        ok, log = ensure_build(self.prop)
+        forb = scan_forbidden(self.prop)
         pr = check_proofs(self.prop) if ok else {
             "ok": False, "rc": 2, "obligations": len(_THM_RE.findall((COQ / "theories" / self.prop / "Properties.v").read_text())),
             "discharged": 0, "theorems": [], "axioms": {}, "bad_axioms": [], "missing_print_assumptions": [],
